@@ -83,3 +83,15 @@ def d20_unclosed_two_run_roundtrip():
     dn.write_interactions(g, b)
     h = dn.read_interactions(io.BytesIO(b.getvalue()), nodetype=int, timestamptype=int)
     return g.has_interaction(0, 1, 1) and not h.has_interaction(0, 1, 1)
+
+
+@script
+def d23_add_interaction_on_frozen():
+    g = dn.DynGraph()
+    g.add_interaction(0, 1, 0)
+    dn.freeze(g)
+    try:
+        g.add_interaction(0, 2, 1)
+    except Exception:
+        return False
+    return g.has_interaction(0, 2, 1)
